@@ -81,32 +81,34 @@ func (g *Glyph) CurveTo(x1, y1, x2, y2, x3, y3 float64) {
 func (g *Glyph) Extent() funit.Rect16 {
 	var left, right, top, bottom float64
 	first := true
-cmdLoop:
-	for _, cmd := range g.Cmds {
-		var x, y float64
-		switch cmd.Op {
-		case OpMoveTo, OpLineTo:
-			x = cmd.Args[0]
-			y = cmd.Args[1]
-		case OpCurveTo:
-			x = cmd.Args[4]
-			y = cmd.Args[5]
-		default:
-			continue cmdLoop
+	add := func(xLo, xHi, yLo, yHi float64) {
+		if first || xLo < left {
+			left = xLo
 		}
-		if first || x < left {
-			left = x
+		if first || xHi > right {
+			right = xHi
 		}
-		if first || x > right {
-			right = x
+		if first || yLo < bottom {
+			bottom = yLo
 		}
-		if first || y < bottom {
-			bottom = y
-		}
-		if first || y > top {
-			top = y
+		if first || yHi > top {
+			top = yHi
 		}
 		first = false
+	}
+	var posX, posY float64
+	for _, cmd := range g.Cmds {
+		switch cmd.Op {
+		case OpMoveTo, OpLineTo:
+			posX, posY = cmd.Args[0], cmd.Args[1]
+			add(posX, posX, posY, posY)
+		case OpCurveTo:
+			// a curve can bulge beyond its end points
+			xLo, xHi := bezierRange(posX, cmd.Args[0], cmd.Args[2], cmd.Args[4])
+			yLo, yHi := bezierRange(posY, cmd.Args[1], cmd.Args[3], cmd.Args[5])
+			add(xLo, xHi, yLo, yHi)
+			posX, posY = cmd.Args[4], cmd.Args[5]
+		}
 	}
 	return funit.Rect16{
 		LLx: funit.Int16(math.Floor(left)),
@@ -114,6 +116,34 @@ cmdLoop:
 		URx: funit.Int16(math.Ceil(right)),
 		URy: funit.Int16(math.Ceil(top)),
 	}
+}
+
+// bezierRange returns the range of values taken by one coordinate of a cubic
+// Bezier curve with the given control values.
+func bezierRange(p0, p1, p2, p3 float64) (lo, hi float64) {
+	lo, hi = math.Min(p0, p3), math.Max(p0, p3)
+	check := func(t float64) {
+		if t <= 0 || t >= 1 {
+			return
+		}
+		mt := 1 - t
+		v := mt*mt*mt*p0 + 3*mt*mt*t*p1 + 3*mt*t*t*p2 + t*t*t*p3
+		lo, hi = math.Min(lo, v), math.Max(hi, v)
+	}
+	// the derivative is 3*(a*t^2 + b*t + c)
+	a := -p0 + 3*p1 - 3*p2 + p3
+	b := 2 * (p0 - 2*p1 + p2)
+	c := p1 - p0
+	if a == 0 {
+		if b != 0 {
+			check(-c / b)
+		}
+	} else if d := b*b - 4*a*c; d >= 0 {
+		s := math.Sqrt(d)
+		check((-b + s) / (2 * a))
+		check((-b - s) / (2 * a))
+	}
+	return lo, hi
 }
 
 // GlyphOp is a CFF glyph drawing command.
